@@ -49,7 +49,37 @@ func cnfGens() []Gen {
 	return []Gen{
 		{Name: "tiny-messy", Weight: 30, Make: func(r *Rng, tier string) interface{} {
 			n := r.Range(1, 4)
-			return makeCnfCase(r, genMessyCnf(r, n, r.Range(0, 9), 3, true), r.Intn(3))
+			cnf := genMessyCnf(r, n, r.Range(0, 9), 3, true)
+			if r.Chance(1, 5) {
+				// one fact written many times (each line is one more entry of the problem's unit list),
+				// next to a part over other variables that still needs a search
+				n = r.Range(3, 8)
+				rest := genKSat(r, n-1, r.Range(n-1, 2*n), r.Range(2, 3))
+				for _, cl := range rest { // variables 2..n
+					for j := range cl {
+						if cl[j] > 0 {
+							cl[j]++
+						} else {
+							cl[j]--
+						}
+					}
+				}
+				u := []int{1}
+				if r.Bool() {
+					u[0] = -1
+				}
+				cnf = rest
+				for k := r.Range(2, n+3); k > 0; k-- {
+					cnf = append(cnf, append([]int{}, u...))
+				}
+				cnf = shuffleCnf(r, cnf)
+				c := makeCnfCase(r, cnf, 0)
+				if r.Chance(3, 4) { // the slice front ends keep every such line
+					c.Front, c.Text, c.NbVars = "slice", "", maxVarCnf(cnf)
+				}
+				return c
+			}
+			return makeCnfCase(r, cnf, r.Intn(3))
 		}},
 		{Name: "small-messy", Weight: 20, Make: func(r *Rng, tier string) interface{} {
 			n := r.Range(3, 10)
@@ -264,6 +294,20 @@ func runCnfCase(o *Oracle, d json.RawMessage, oc *Outcome, prop string) {
 	oc.Key = keyOf(c)
 	oc.Sample = fmt.Sprintf("front=%s n=%d cert=%v nbmax=%d cnf=%s", c.Front, c.NbVars, c.Certified, c.NbMax, cnfString(c.Clauses))
 	oc.Tag("front:" + c.Front)
+	{
+		cnt := map[int]int{}
+		for _, cl := range c.Clauses {
+			if len(cl) == 1 {
+				cnt[cl[0]]++
+			}
+		}
+		for _, k := range cnt {
+			if k >= 3 && c.Front != "dimacs" {
+				oc.Tag("slice-with-a-fact-written-3+-times")
+				break
+			}
+		}
+	}
 	entry := "solver.Solve"
 	run := solveCnf(&c, c.Certified, c.NbMax)
 	if run.err != nil {
